@@ -59,8 +59,9 @@ RelOK ==
 TriOK ==
   /\ Check(WF(Ev.a) /\ WF(Ev.b) /\ WF(Ev.c), "wf")
   /\ Check(Ev.eab /\ Ev.ebc => Ev.eac, "eq-transitive")
-  /\ Check(Ev.eab = Equal(Ev.a, Ev.b) /\ Ev.ebc = Equal(Ev.b, Ev.c)
-           /\ Ev.eac = Equal(Ev.a, Ev.c), "eq")
+  /\ Check(/\ Ev.eab = Equal(Ev.a, Ev.b) \/ ResolutionOnly(Ev.a, Ev.b)
+           /\ Ev.ebc = Equal(Ev.b, Ev.c) \/ ResolutionOnly(Ev.b, Ev.c)
+           /\ Ev.eac = Equal(Ev.a, Ev.c) \/ ResolutionOnly(Ev.a, Ev.c), "eq")
   /\ Ev.ord /\ Stated(Ev.a, Ev.b) /\ Stated(Ev.b, Ev.c) /\ Stated(Ev.a, Ev.c) =>
        /\ Check(Ev.ab /\ Ev.bc => Ev.ac, "lt-transitive")
        /\ Check(Ev.eab => (Ev.ac = Ev.bc), "lt-respects-eq")
@@ -95,7 +96,9 @@ HeldStep ==
          /\ Check(Agree(Ev.px, Ev.eq), "interchangeable")
 
 (* sort: input, output and the permutation p with out[k] = inp[p[k]] that the
-   harness read off the element identities; m: "id" | "key" | "idrev" | "keyrev" *)
+   harness read off the element identities; m: "id" | "key" | "idrev" | "keyrev",
+   and "id3" (cmp = fn(a, b) 3 * compare(a, b)) / "idsub" (cmp = fn(a, b) a - b
+   on ints): a cmp may answer any negative / positive number *)
 KeyOf(m, x)  == IF m \in {"key", "keyrev"} THEN x.items[1] ELSE x
 Cmp(m, x, y) == IF m \in {"idrev", "keyrev"} THEN Compare(y, x) ELSE Compare(x, y)
 SortOK ==
@@ -112,13 +115,37 @@ SortOK ==
                   Cmp(Ev.m, KeyOf(Ev.m, Ev.out[k]), KeyOf(Ev.m, Ev.out[k + 1])) = 0
                     => Ev.p[k] < Ev.p[k + 1], "sort-stable")
 
-(* enum: the order in which a set's elements / a map's keys were enumerated *)
+(* enum: what one enumeration site of the language delivered for a set / a map.
+   what: "keys" (elements of a set, keys of a map), "values", "entries" ([k, v]
+   pairs); full: the site yields everything (a destructuring yields only the
+   first Len(order)).  Wherever a program enumerates - comprehension, for loop,
+   list(), spread into a list literal or into a call, destructuring def /
+   assignment / loop, sorted() handed a set - the order is the ascending one. *)
 EnumOK ==
-  LET v == Ev.v  o == Ev.order IN
-  /\ Check(WF(v) /\ v.k \in {"set", "map"}, "wf")
-  /\ Check(Len(o) = Len(v.items) /\ \A k \in DOMAIN o : Has(v.items, o[k]), "enum-permutation")
-  /\ OrderStated(v) =>
-       Check(\A k \in 1..(Len(o) - 1) : Less(o[k], o[k + 1]), "enum-ascending")
+  LET v == Ev.v  o == Ev.order
+      exp == CASE Ev.what = "keys" -> EnumKeys(v)
+               [] Ev.what = "values" -> EnumVals(v)
+               [] OTHER -> EnumEntries(v) IN
+  /\ Check(WF(v) /\ v.k \in {"set", "map"} /\ (Ev.what # "keys" => v.k = "map"), "wf")
+  /\ Check(IF Ev.full THEN Len(o) = Len(exp) ELSE Len(o) <= Len(exp), "enum-length")
+  /\ Ev.what = "keys" =>
+       Check(/\ \A k \in DOMAIN o : Has(v.items, o[k])
+             /\ \A k \in DOMAIN o, h \in DOMAIN o : k # h => ~Equal(o[k], o[h]), "enum-permutation")
+  /\ OrderStated(v) /\ Len(o) <= Len(exp) =>
+       /\ Ev.what = "keys" => Check(\A k \in 1..(Len(o) - 1) : Less(o[k], o[k + 1]), "enum-ascending")
+       /\ Check(\A k \in DOMAIN o : Equal(o[k], exp[k]), "enum-order")
+
+(* minmax: min / max over a list (m: "min" | "max"; key: the call had
+   key = fn(x) x[0]); which: the position of the returned object in the input
+   (0: not an element of it), read off the element identities *)
+MinMaxOK ==
+  LET n == Len(Ev.inp)
+      keys == [k \in 1..n |-> IF Ev.key THEN Ev.inp[k].items[1] ELSE Ev.inp[k]] IN
+  /\ Check(\A k \in 1..n : WF(Ev.inp[k]), "wf")
+  /\ Check(Ev.which \in 1..n, "minmax-element")
+  /\ (Ev.which \in 1..n /\ \A k \in 1..n, h \in 1..n : Stated(keys[k], keys[h])) =>
+       IF Ev.m = "min" THEN Check(IsLeastAt(keys, Ev.which), "min")
+       ELSE Check(IsGreatestAt(keys, Ev.which), "max")
 
 (* render: the tokens the real scanner delivered for the text of v, whether
    every construction order gave that text, and what evaluating it gave *)
@@ -176,6 +203,7 @@ Step ==
        [] Ev.op = "tri"    -> cur' = cur /\ held' = held /\ TriOK
        [] Ev.op = "sort"   -> cur' = cur /\ held' = held /\ SortOK
        [] Ev.op = "enum"   -> cur' = cur /\ held' = held /\ EnumOK
+       [] Ev.op = "minmax" -> cur' = cur /\ held' = held /\ MinMaxOK
        [] Ev.op = "render" -> cur' = cur /\ held' = held /\ RenderOK
        [] Ev.op \in {"cnew", "cadd", "crem", "cput", "chas", "cget", "ceq", "cdiff"} -> held' = held /\ ContStep
        [] Ev.op \in {"hnew", "hedit", "hrel"} -> cur' = cur /\ HeldStep
